@@ -20,7 +20,11 @@ class Timer:
         self.expire_time = self.start_time + timeout
         self.auto_restart = auto_restart
         self.stopped = False
-        self.args = args if args is not None else []
+        if args is None:
+            args = []
+        elif not isinstance(args, (list, tuple)):
+            args = [args]  # a single positional argument given as a scalar
+        self.args = args
         self.kwargs = kwargs if kwargs is not None else {}
         self.proc = env.process(self.run(env))
 
@@ -46,6 +50,8 @@ class Timer:
         self.start_time = self.env.now
         self.timeout = timeout
         self.expire_time = self.start_time + timeout
-        if not self.proc.processed:
+        if self.proc is self.env.active_process:
+            return  # called from the timeout callback: run() sleeps on until the new expire_time
+        if self.proc.is_alive:
             self.proc.interrupt("restart timer")
             self.proc = self.env.process(self.run(self.env))
